@@ -238,7 +238,15 @@ def r5_binify_guards(ctx):
         nedges = la.get("num")
         counts = [S0.E(t) for t in ("int(bins[0]) + 1", "bins[0] + 1", "int(bins) + 1", "bins + 1", "int(bins.item()) + 1", "bins.item() + 1")]
         if nedges is None or not any(same(nedges, w) for w in counts):
-            if nedges is not None and not is_unknown(nedges) and not isinstance(nedges, tuple) and depends(nedges, "bins") and apps(nedges, "call:"):
+            # the same shape with another entry of `bins` or another offset (int(bins[0]) - 1, bins[1] + 1, ...) is wrong; a conversion this rule
+            # does not read is not decided
+            shaped = False
+            if nedges is not None and not is_unknown(nedges) and not isinstance(nedges, tuple):
+                for k_ in (0, 1, -1):
+                    for c_ in range(-2, 4):
+                        for t_ in (f"int(bins[{k_}]) + {c_}", f"bins[{k_}] + {c_}", f"int(bins) + {c_}", f"bins + {c_}"):
+                            shaped = shaped or same(nedges, S0.E(t_))
+            if not shaped and nedges is not None and not is_unknown(nedges) and not isinstance(nedges, tuple) and depends(nedges, "bins") and apps(nedges, "call:"):
                 oks.append(None)        # the number of edges is taken from `bins` through a conversion this rule does not read
                 continue
         ok = same(la.get("start"), S0.E("mn")) and same(la.get("stop"), S0.E("mx")) and nedges is not None \
@@ -395,7 +403,10 @@ def r5_binify_guards(ctx):
                 S2 = XSem(ctx, f2, consts=consts)
                 p2 = params(f2)
                 mm_ok.append(same(S2.ret(), S2.E(f"(np.max({p2[0]}), np.min({p2[0]}))")))
-    ctx.check(bool(mm_ok) and all(mm_ok), "maxmin (numpy variant) returns (largest, smallest)", bf, nontrivial=False)
+    if not mm_ok:
+        ctx.error("maxmin (numpy variant) returns (largest, smallest)", bf, "no loop-free definition of maxmin found")
+    else:
+        ctx.check(all(mm_ok), "maxmin (numpy variant) returns (largest, smallest)", bf, nontrivial=False)
 
     def mm_call(node, ev):
         from .e1_srcmodel import dotted
@@ -525,11 +536,21 @@ def r5_binify_guards(ctx):
                         or not same(u[1][1], F.fn("len", edges) - 1):
                     ok = False
                     det = {kw: short(df[0][2][kw])}
+                    # wrong only when the two label arguments are recognisably entries of a bin-edge array (this axis' at other positions, or the other
+                    # axis'); anything else (pairwise iterators, formatted edges, ...) is a spelling this rule does not read
+                    if e is not None and len(e[1]) == 3:
+                        for x in e[1][1:3]:
+                            b_, ix_ = peel(x)
+                            if not (len(ix_) == 2 and const_of(ix_[0]) == 0 and any(same(b_, G[w]) for w in ("amp", "mean"))):
+                                shape = False
                     break
                 for rt, (first, last) in ((True, "(]"), (False, "[)")):
                     fv = _under(e[1][0], Facts(truths=[(Sf0.E("right"), rt)]))
                     sp = str_parts(fv)
-                    if sp is None or not isinstance(sp[0], str) or not isinstance(sp[-1], str) or sp[0][:1] != first or sp[-1][-1:] != last:
+                    if sp is None or not isinstance(sp[0], str) or not isinstance(sp[-1], str) or not sp[0] or not sp[-1]:
+                        shape = False          # the format's first / last character is not a literal this rule can read
+                        det = {"label form (not read)": short(fv), "right": rt}
+                    elif sp[0][:1] != first or sp[-1][-1:] != last:
                         ok = False
                         det = {"label form": short(fv), "right": rt}
         if not shape:
@@ -743,8 +764,24 @@ def r6_tolerance_strictness(ctx):
             for rv, _, g in S.returns():
                 if sym_of(rv) is not None and sym_of(rv) in {c[0] for c in S.tr.cells}:
                     arr = sym_of(rv)
-            first = [c for c in (S.cells(arr) if arr else []) if const_of(c[1]) == 0 and truth(c[2], None) is True and not c[4]["guard"] and not c[4]["loops"]]
-            ctx.check(bool(first), "findap (loop variant): the first sample is always selected", fn, nontrivial=False)
+            def covers0(ix):
+                """the store index reaches entry 0: 0 itself, [:k] / [0:k] with k >= 1, or every entry"""
+                if const_of(ix) == 0 or _is_full(ix):
+                    return True
+                sl = app(ix, "slice") if not isinstance(ix, (tuple, str)) and not is_unknown(ix) else None
+                return sl is not None and (sym_of(sl[1][0]) == "None" or const_of(sl[1][0]) == 0) and const_of(sl[1][1]) is not None and const_of(sl[1][1]) >= 1 \
+                    and sym_of(sl[1][2]) == "None"
+            cs = S.cells(arr) if arr else []
+            plain = [c for c in cs if not c[4]["guard"] and not c[4]["loops"]]
+            first = [c for c in plain if not is_unknown(c[1]) and covers0(c[1]) and truth(c[2], None) is True]
+            created_true = arr is not None and S.init(arr) is not None and not isinstance(S.init(arr), tuple) and truth(S.init(arr), None) is True
+            msg = "findap (loop variant): the first sample is always selected"
+            if first or created_true:
+                ctx.ok(msg, fn, nontrivial=False)
+            elif arr is None or any(is_unknown(c[1]) or (const_of(c[1]) is None and app(c[1], "slice") is None) for c in plain):
+                ctx.error(msg, fn, "the returned mask is not an array whose unconditional stores have readable positions")       # a store this rule cannot place
+            else:
+                ctx.fail(msg, fn, {"unconditional stores": [(short(c[1], 40), short(c[2], 40)) for c in plain][:4]})
 
 
 def _masks(S, v, depth=3):
@@ -1393,20 +1430,28 @@ def _cumcount(ctx, S, q, fn, roles=None, nbins=None):
     if red != "call:np.sum":
         ctx.fail(msg, c[3], {"the masked cycle counts are reduced with": red[5:], "expected": "their sum"})
         return None
-    # what the mask compares: one entry of the level array at the store's own (row, bin) position, and one column of a cycle table
-    lev = amp = LV = None
-    levels, columns = [], []
-    for x in walk(mask):
+    # what the mask compares: one column of a cycle table with the level of the store's own (row, bin) position - an entry of the level array
+    # (scaled in place before), or the scaled entry written out (unit level x largest amplitude, stored into the level array afterwards)
+    cmps = [(nm, a, x) for nm, a, x in apps(mask, "cmp:") if len(a) == 2 and not any(isinstance(k, str) for k in a)]
+    sides = []
+    for nm, a, x in cmps:
+        for k in (0, 1):
+            if _cycle_col(a[k]) is not None:
+                sides.append((a[k], a[1 - k]))
+    if len(cmps) != 1 or len(sides) != 1:
+        ctx.error(msg, c[3], {"mask": short(mask), "why": f"the mask is not one comparison of a cycle-table column with a level ({len(cmps)} comparisons)"})
+        return None
+    amp, L = sides[0]
+    levels = []
+    for x in walk(L):
         r, ixs = peel(x)
-        if sym_of(r) is not None and len(ixs) == 2 and (sym_of(r) in S.tr.inits or any(cc[0] == sym_of(r) for cc in S.tr.cells)):
+        if sym_of(r) is not None and len(ixs) == 2 and (sym_of(r) in S.tr.inits or any(cc_[0] == sym_of(r) for cc_ in S.tr.cells)):
             if not any(same(x, y) for y in levels):
                 levels.append(x)
-        if _cycle_col(x) is not None and not any(same(x, y) for y in columns):
-            columns.append(x)
-    if len(levels) != 1 or len(columns) != 1:
-        ctx.error(msg, c[3], {"mask": short(mask), "why": f"the mask reads {len(levels)} entries of level arrays and {len(columns)} cycle-table columns"})
+    if len(levels) != 1:
+        ctx.error(msg, c[3], {"mask": short(mask), "why": f"the level compared reads {len(levels)} entries of level arrays"})
         return None
-    lev, amp = levels[0], columns[0]
+    lev = levels[0]
     r, ixs = peel(lev)
     LV = sym_of(r)
     cc = _cycle_col(ccol)
@@ -1416,12 +1461,23 @@ def _cumcount(ctx, S, q, fn, roles=None, nbins=None):
     if not (same(ixs[0], J) and same(ixs[1], K)):
         ctx.fail(msg, c[3], {"mask": short(mask), "store index": [short(J), short(K)], "level read at": [short(i) for i in ixs]})
         return None
+    if not same(L, lev):
+        # the level written out: it must be what the row of the level array is set to (X[j] = unit * amax), element K
+        rows = [cx for cx in S.cells(LV) if same(cx[1], J) and not is_unknown(cx[2]) and not isinstance(cx[2], tuple)]
+        if len(rows) != 1 or not same(S.ev.mk_idx(rows[0][2], K), L):
+            ctx.error(msg, c[3], {"mask": short(mask), "why": "the level compared is neither an entry of the level array nor the value its row is set to"})
+            return None
     tt = []
     for d_ in (-1, 0, 1):
         f = Facts()
         try:
-            f.num_set(amp, 5 + d_)
-            f.num_set(lev, 5)
+            for a_ in sorted(need(L).n.atoms() | need(L).d.atoms()):
+                f.nums[a_] = Fraction(1)
+            f.nums[single_atom(lev)] = Fraction(5)
+            lv_ = f.num(L)
+            if lv_ is None:
+                raise Unsupported("level value")
+            f.num_set(amp, lv_ + d_)
         except Unsupported:
             tt.append(None)
             continue
@@ -1663,9 +1719,29 @@ def r3_telescoping(ctx):
         unread = None
         if ok:
             try:
-                fac = S_.load(need(sc[0][2]) / S_.ev.mk_idx(F.sym(LV), inf["J"]))
+                fac = need(sc[0][2]) / S_.ev.mk_idx(F.sym(LV), inf["J"])
+                mp = {}
+                for a_ in fac.n.atoms() | fac.d.atoms():           # entries of other arrays: the value last stored there
+                    av = F.Rat(F.Poly.atom(a_))
+                    lv_ = S_.load(av)
+                    if lv_ is not av and not is_unknown(lv_) and not isinstance(lv_, tuple) and sym_of(peel(av)[0]) != LV:
+                        mp[a_] = lv_
+                if mp:
+                    fac = F._subs_poly(fac.n, mp) / F._subs_poly(fac.d, mp)
                 ok = same(fac, S_.E("np.max(A)", A=inf["amp"]))
-                if not ok and not (not is_unknown(fac) and not isinstance(fac, tuple) and (head(fac) in REDUCERS or const_of(fac) is not None or apps(fac, "call:signal.lfilter"))):
+                def statistic(v):
+                    """built from constants, full reductions (max, min, mean, ... of something) and the level array itself: readable as 'not max(amp)'"""
+                    if is_unknown(v) or isinstance(v, tuple):
+                        return False
+                    for a_ in need(v).n.atoms() | need(v).d.atoms():
+                        av = F.Rat(F.Poly.atom(a_))
+                        if head(av) in REDUCERS:
+                            continue
+                        if sym_of(peel(av)[0]) == LV:
+                            continue            # the stored value is not a multiple of the row: not a scaling at all
+                        return False
+                    return True
+                if not ok and not (not is_unknown(fac) and not isinstance(fac, tuple) and (statistic(fac) or apps(fac, "call:signal.lfilter"))):
                     unread = f"the factor the row of levels is scaled by is not read: {short(fac, 200)}"        # neither max(amp) nor recognisably something else
             except Unsupported as e:
                 ok, unread = False, str(e)
@@ -1890,13 +1966,19 @@ def r1_exponents(ctx):
             ctx.error(f"fdepsd [{label}]: G2 uses the same factor as G1 (G2/G2max == G1/Amax^2), and G2max starts at Amax^2", fn, short(psd["G2"]))
         else:
             ctx.check(ok, f"fdepsd [{label}]: G2 uses the same factor as G1 (G2/G2max == G1/Amax^2), and G2max starts at Amax^2", fn, None if ok else short(psd["G2"]))
-        oks = []
+        oks, dec = [], True
         for b in (8, 12):
             try:
-                oks.append((need(psd[f"G{b}"]) * need(vt["b=4"])).equals(need(psd["G4"]) * need(vt[f"b={b}"])))
+                l_, r_ = need(psd[f"G{b}"]) * need(vt["b=4"]), need(psd["G4"]) * need(vt[f"b={b}"])
+                oks.append(l_.equals(r_))
+                dec = dec and (oks[-1] or _decisive(l_, r_))
             except Unsupported:
                 oks.append(False)
-        ctx.check(all(oks), f"fdepsd [{label}]: G4, G8, G12 are obtained from their variances with one and the same factor", fn, None if all(oks) else oks)
+                dec = False
+        if not all(oks) and not dec:
+            ctx.error(f"fdepsd [{label}]: G4, G8, G12 are obtained from their variances with one and the same factor", fn, oks)
+        else:
+            ctx.check(all(oks), f"fdepsd [{label}]: G4, G8, G12 are obtained from their variances with one and the same factor", fn, None if all(oks) else oks)
         for b in (4, 8, 12):
             dec = True
             try:
